@@ -27,6 +27,13 @@ from vlib.core import Check
 from vlib.tr import CONE, CZERO, ETA, Ang, Cx, Tr, det, eq_all, flatten, ident, matmul, matvec, transpose
 
 LEVEL = "proof"
+ENGINE = 'E1 exprvc + E2 npvc'
+CLAIM = (
+    'Every equation of the statement (L^T eta L = eta, det 1, L00>=1, rest frame, inverse = boost of negated momentum, z-boost = general boost along z, additive composition, generated code = explicit matrix for cse on/off) is an SMT obligation over all real momenta with E>0, E^2>|p|^2, |p|>0 and all angles, generated from the current source on every run; discrete structure (4 classes, cse flag, einsum chain lengths 1..18) is enumerated exhaustively.'
+)
+NOTE = (
+    "Trusted: z3 5.1 / cvc5 1.0.3 'unsat' answers; the SymPy-node -> SMT translation table (vlib/tr.py), cross-checked on every run at each cover model against numpy evaluation of the real tree; floats treated as exact reals (A-arith); per-event semantics of array expressions (A-batch). requires |p|>0 for the general boost (0/0 at rest). Floating-point conditioning over orders of magnitude of beta*gamma is not decided."
+)
 TECHNIQUE = (
     "contract-based deductive verification: E1 denotational VCs on the SymPy trees returned by the real "
     "functions (nested classes replaced by their contracts), E2 VCs on the generated numpy source; z3 nlsat / cvc5"
